@@ -29,6 +29,7 @@ func init() {
 			{ID: "C13.8", Desc: "the Age emitted on the stale-if-error return includes the time since the age was computed (the failed validation attempt)", Run: func(c *Ctx) { ruleAgeEmission(c, "C13.8") }, MinSites: 1},
 			{ID: "C13.7", Desc: "the window sum (lifetime + stale-if-error) and the age sum saturate", Run: func(c *Ctx) { ruleDurationSums(c, "C13.7") }, MinSites: 2},
 			{ID: "C13.6", Desc: "otherwise the failure is returned", Run: ruleC13_6, MinSites: 2},
+			{ID: "C13.10", Desc: "a stale-if-error value too large to represent saturates instead of being ignored", Run: func(c *Ctx) { ruleSaturation(c, "C13.10") }, MinSites: 2},
 		},
 	})
 }
